@@ -45,6 +45,10 @@ def observe(ctx, g0, s0):
 
 
 def run_case(ctx, case):
+    return common.case_guard(ctx, case, _run_case)
+
+
+def _run_case(ctx, case):
     import tucan.canonicalization as c
     import tucan.serialization as s
     g0, mol = molprops.build_case_graph(case)
